@@ -117,7 +117,11 @@ def oracle(tr):
                         rets = [l for l in per.get(conn, []) if fld(l, "t") == "2" and fld(l, "rs") == ser and hexname(fld(l, "sender")) == BUS]
                         errs = [l for l in per.get(conn, []) if fld(l, "t") == "3" and fld(l, "rs") == ser and hexname(fld(l, "sender")) == BUS]
                         flagged_noreply = False
-                        if len(rets) == 1 and not errs and fld(rets[0], "body") == "u:1":
+                        # (a client may have asked twice with one serial: as many replies as requests of that serial are waiting)
+                        same = len([1 for (c2, s2, t2, a2, n2) in w["msgs"] if c2 == conn and s2 == ser and not a2])
+                        # (... and the request that takes the name may itself carry that serial: its own reply is one more)
+                        own = 1 if (sent and actor == conn and fld(sent, "ser") == ser) else 0
+                        if len(rets) in (same, same + own) and not errs and all(fld(x, "body") == "u:1" for x in rets[:same]):
                             stats["start_replies"] += 1
                         else:
                             bad.append((None, "step %d: %s taken: StartServiceByName caller %s#%s got %d replies (%s) and %d errors"
